@@ -145,9 +145,25 @@ SAN_ENV = {"ASAN_OPTIONS": "detect_leaks=1:abort_on_error=1:handle_abort=0:alloc
            "UBSAN_OPTIONS": "halt_on_error=1:abort_on_error=1:print_stacktrace=0"}
 
 
+def shipped_patterns():
+    """command patterns shipped in the repository's tests and examples (one per line), for domain M"""
+    out = os.path.join(BUILD, "patterns.txt")
+    pats = set()
+    for f in glob.glob(os.path.join(REPO, "libscpi", "test", "*.c")) + glob.glob(os.path.join(REPO, "examples", "common", "*.c")):
+        try:
+            txt = open(f, encoding="latin-1").read()
+        except OSError:
+            continue
+        for m in re.finditer(r'"([*:\[]?[A-Z][\]\[A-Za-z0-9:#_]*\??)"', txt):
+            pats.add(m.group(1))
+    with open(out, "w") as fh:
+        fh.write("\n".join(sorted(pats)) + "\n")
+    return out
+
+
 def run_pipeline(exe, cfg, args, seed, stdin_lines=None):
     """harness | driver ; returns parsed driver output"""
-    env = dict(os.environ, VERIF_SEED=str(seed), VERIF_CFG=cfg, **SAN_ENV)
+    env = dict(os.environ, VERIF_SEED=str(seed), VERIF_CFG=cfg, VERIF_PATTERNS=os.path.join(BUILD, "patterns.txt"), **SAN_ENV)
     errf = open(os.path.join(BUILD, "stderr.%d.%s" % (os.getpid(), hashlib.md5(" ".join(args).encode()).hexdigest()[:8])), "w+")
     h = subprocess.Popen([exe] + args, stdin=subprocess.PIPE if stdin_lines is not None else subprocess.DEVNULL,
                          stdout=subprocess.PIPE, stderr=errf, env=env)
@@ -326,6 +342,7 @@ def check_property(pid, tier, seed, replay=None):
                 else:
                     notes.append("leanchecker %s: ok" % mod)
         # 4. harness
+        shipped_patterns()
         for c in cfgs:
             exe, err = build_harness(c)
             if exe is None:
